@@ -350,7 +350,7 @@ pub fn mirrored(rel: &str, layout: &Layout) -> String {
 }
 
 pub fn reference(files: &[SrcFile], annotate: bool, refs: &mut RefCache, stats: &mut Stats) -> JobResult {
-    let p = Program { files: files.to_vec(), annotate, features: vec![], label: String::new() };
+    let p = Program { files: files.to_vec(), annotate, features: vec![], label: String::new(), path_mode: String::new() };
     let k = c12::program_key(&p);
     if !refs.map.contains_key(&k) {
         stats.reference_runs += 1;
